@@ -813,8 +813,10 @@ func (p *Parser) addString(s string, off int) {
 	if 0 < len(p.starts) && p.starts[len(p.starts)-1] == -1 { // object
 		if p.plus {
 			obj, _ := p.stack[len(p.stack)-1].(map[string]any)
-			prev := obj[string(p.lastStrKey)].(string)
-			obj[string(p.lastStrKey)] = prev + s
+			prev, _ := obj[string(p.lastStrKey)].(string)
+			if obj != nil {
+				obj[string(p.lastStrKey)] = prev + s
+			}
 			p.lastStrKey = emptyKey
 			p.plus = false
 			return
@@ -832,11 +834,15 @@ func (p *Parser) addString(s string, off int) {
 		return
 	}
 	if p.plus {
-		if 0 < len(p.stack) {
-			prev := p.stack[len(p.stack)-1].(string)
-			p.stack[len(p.stack)-1] = prev + s
-		}
 		p.plus = false
+		if 0 < len(p.stack) {
+			if prev, ok := p.stack[len(p.stack)-1].(string); ok {
+				p.stack[len(p.stack)-1] = prev + s
+				return
+			}
+		}
+		// Nothing to concatenate with, treat as a plain string.
+		p.stack = append(p.stack, s)
 		return
 	}
 	// TBD if time option for @ and length is over a certain size try as time
